@@ -299,9 +299,17 @@ MethodSwaps ==
        \cup {Mut("method-swap", fl, "Failed " \o m \o SubSeq(fl.line, 16, Len(fl.line))) : m \in Methods}
        \cup {Mut("method-swap", fli, "Failed " \o m \o SubSeq(fli.line, 16, Len(fli.line))) : m \in Methods}
 
+\* a rejected attempt printed in the shape of an accepted one ("Failed publickey for ... ssh2: RSA-CERT ... ID ... CA ...",
+\* sshd logs these for rejected keys and certificates): whatever the daemon makes of it, it is not a login
+FailedShapes ==
+    {Mut("accepted-as-failed", b, "Failed" \o SubSeq(b.line, 9, Len(b.line))) :
+        b \in {AccKey(A0, H0, P0, K0, F0), AccCert(A0, H0, P0, K0, F0, Kid0, "0", "RSA", F0),
+                AccCert(A0, H0, P0, "ED25519-CERT", F0, "<kid.spaces>", "<ser.rand>", "ED25519", F0),
+                AccPad(A0, H0, P0, K0, F0, " and stuff")}}
+
 VMutants ==
     UNION {Truncations(b) \cup KeywordChanges(b) \cup Duplications(b) : b \in Baseline}
-    \cup MethodSwaps
+    \cup MethodSwaps \cup FailedShapes
     \cup (IF Full THEN UNION {Splices(b, c) : b \in Baseline, c \in Baseline} ELSE
            UNION {Splices(b, c) : b \in {AccPw(A0, H0, P0), InvalidUser(A0, H0, P0), RootRefused(H0, P0)},
                                  c \in Baseline})
